@@ -1222,6 +1222,10 @@ func (f *fnCtx) multi(c *ast.CallExpr, n int) []string {
 			return ts
 		}
 	}
+	if fn := f.calleeFunc(c); fn != nil && fn.Pkg() != nil && fn.Name() == "AbiEncodeBool" && strings.HasSuffix(fn.Pkg().Path(), "x/cpc/utils") && n == 2 && len(c.Args) == 1 {
+		// the ABI encoding of a bool: one 32-byte word; never an error
+		return []string{"(Go.abiBool " + f.atom(f.expr(c.Args[0])) + ")", "none"}
+	}
 	if vals, ok := f.opaqueCall(c, n); ok {
 		return vals
 	}
